@@ -454,6 +454,55 @@ theorem C02_text_uint_range (inp : Inp) : LPost (tReadUInt inp) (fun v => v ≤ 
             simp only [G.tooBig] at hle
             omega
 
+theorem foldl_bytes_lt (f : Nat → Nat) (hb : ∀ i, f i < 256) :
+    ∀ n, (List.range n).foldl (fun acc i => acc + f i * 2 ^ (8 * i)) 0 < 2 ^ (8 * n) := by
+  intro n
+  induction n with
+  | zero => simp
+  | succ n ih =>
+    rw [List.range_succ, List.foldl_append]
+    simp only [List.foldl_cons, List.foldl_nil]
+    have hx : 2 ^ (8 * (n + 1)) = 2 ^ (8 * n) * 256 := by
+      rw [Nat.mul_add, Nat.pow_add]
+    rw [hx]
+    have h1 : f n * 2 ^ (8 * n) ≤ 255 * 2 ^ (8 * n) := Nat.mul_le_mul_right _ (by have := hb n; omega)
+    generalize 2 ^ (8 * n) = X at *
+    generalize f n * X = t at *
+    omega
+
+/-- an `n`-byte field is below `2^(8n)`; in particular what `BinaryReader::ReadInt<int>` reads is below 2^32 -/
+theorem leBytes_lt (inp : Inp) (swap : Bool) (p n : Nat) : leBytes inp swap p n < 2 ^ (8 * n) := by
+  unfold leBytes
+  exact foldl_bytes_lt (fun i => (inp.rd (if swap then p + (n - 1 - i) else p + i)).toNat)
+    (fun i => (inp.rd _).toNat_lt) n
+
+/-- `BinaryReader::ReadUInt()` (native or byte-swapped) only returns values in `0 … INT_MAX`: the binary counterpart of
+    `C02_text_uint_range`, so the range hypotheses of the `C02_gen_*` guard theorems hold for both reader kinds -/
+theorem C02_bin_uint_range (inp : Inp) (swap : Bool) : LPost (bReadUInt inp swap) (fun v => v ≤ intMax) := by
+  constructor
+  intro r v r' h
+  unfold bReadUInt at h
+  obtain ⟨w, r1, hw, h⟩ := bind_ok h
+  unfold bReadInt at hw
+  obtain ⟨r0, r2, _, hw⟩ := bind_ok hw
+  obtain ⟨_, r3, _, hw⟩ := bind_ok hw
+  obtain ⟨q, r4, _, hw⟩ := bind_ok hw
+  cases hw
+  have hlt : leBytes inp swap q 4 < 4294967296 := leBytes_lt inp swap q 4
+  split at h
+  · cases h
+  · rename_i hneg
+    cases h
+    simp only [G.negative, toSigned] at hneg ⊢
+    unfold intMax
+    split at hneg <;> split <;> omega
+
+/-- the reader-kind independent form: whatever `reader_.ReadUInt()` returns is in `0 … INT_MAX` -/
+theorem C02_uint_range (inp : Inp) (k : RKind) : LPost (rReadUInt inp k) (fun v => v ≤ intMax) := by
+  cases k with
+  | text => exact C02_text_uint_range inp
+  | bin s => exact C02_bin_uint_range inp s
+
 /-- `C02_file_eq_string` does not rest on the totalised read beyond the array: for a positive page size the buffer
     handed to `ReadNLString` physically contains a byte at offset `size` (copy path: the appended NUL; mmap path: the
     zero tail of the last page) and that byte is NUL -/
